@@ -341,6 +341,39 @@ var c04Kinds = []*c04Kind{
 		},
 	},
 	{
+		// The same patterns against result lists written the way gofmt
+		// leaves them: no parentheses around a single unnamed result, and
+		// nothing at all where a function has no result.
+		name: "results-gofmt", comma: true, holeKind: "expression",
+		elem: func(s byte) string {
+			switch s {
+			case '1':
+				return "hvx"
+			case '2':
+				return "hvy"
+			case 'M':
+				return "Mkq"
+			}
+			return strings.ToUpper(string(s)) + "q"
+		},
+		pattern: func(me, pe []string) ([]string, []string) {
+			return append(append([]string{"func tgt() ("}, commaLines(me)...), ") {", "}"), append(append([]string{"func tgq() ("}, commaLines(pe)...), ") {", "}")
+		},
+		site: func(i int, e []string, rw bool) string {
+			name := "tgt"
+			if rw {
+				name = "tgq"
+			}
+			switch len(e) {
+			case 0:
+				return fmt.Sprintf("func %s() {\n}\n", name)
+			case 1:
+				return fmt.Sprintf("func %s() %s {\n}\n", name, e[0])
+			}
+			return fmt.Sprintf("func %s() (%s) {\n}\n", name, strings.Join(e, ", "))
+		},
+	},
+	{
 		name: "struct-fields", comma: false, holeKind: "identifier",
 		elem: func(s byte) string {
 			switch s {
@@ -644,7 +677,7 @@ func TestC04(t *testing.T) {
 	maxPat := envInt("VERIF_C04_MAXPAT", 4)
 	maxPatArgs := envInt("VERIF_C04_MAXPAT_ARGS", 5)
 	maxList := envInt("VERIF_C04_MAXLIST", 5)
-	kinds := strings.Split(envStr("VERIF_C04_KINDS", "call-args,block-stmts,block-stmts/implicit,struct-fields"), ",")
+	kinds := strings.Split(envStr("VERIF_C04_KINDS", "call-args,block-stmts,block-stmts/implicit,struct-fields,results-gofmt"), ",")
 	if thorough() {
 		kinds = nil
 		for _, kd := range c04Kinds {
